@@ -7,6 +7,7 @@ the offending cases are re-run alone.
 """
 import json
 import os
+import threading
 import re
 
 from . import common
@@ -248,6 +249,7 @@ def rustc_diagnose(main_rs, out, bindings_text, bindings_path, mode="bin", editi
     else:
         cmd += ["--crate-type", "lib", "--emit=metadata", "--out-dir", os.path.dirname(out)]
     cmd += (extra or [])
+    _DIAG.by_tag = {}
     p = common.sh(cmd, timeout=900)
     if p.returncode == 0:
         return True, set(), []
@@ -285,8 +287,19 @@ def rustc_diagnose(main_rs, out, bindings_text, bindings_path, mode="bin", editi
             tags |= set(t)
         for t in tags - before | {x for x in tags if x in msg}:
             by_tag.setdefault(t, []).append(msg)
-    rustc_diagnose.last_by_tag = by_tag
+    _DIAG.by_tag = by_tag
     return False, tags, msgs
+
+
+# Per-tag messages of the calling thread's last failed rustc_diagnose. The batch pipelines run in a thread pool (common.pmap):
+# this used to be one attribute on the function object, so a batch could read the dictionary another batch had just stored,
+# find none of its tags there and fall back to the first two messages of its own batch - wrong error codes for the case, hence a
+# wrong known-finding predicate (DESIGN.md section 11, the C01 alarm of the fifth restore run).
+_DIAG = threading.local()
+
+
+def last_by_tag():
+    return getattr(_DIAG, "by_tag", {})
 
 
 # --------------------------------------------------------------------------------------------------
@@ -352,7 +365,7 @@ def run_layout_batches(batches, wd, flags, values=True, lang="c", timeout=120):
                 for c in live:
                     res[c.tag]["rust_error"] = ["unattributed: " + "; ".join(msgs[:3])]
                 break
-            bt = getattr(rustc_diagnose, "last_by_tag", {})
+            bt = last_by_tag()
             for c in bad:
                 res[c.tag]["rust_error"] = sorted(set(bt.get(c.tag) or msgs[:2]))[:4]
             live = [c for c in live if c.tag not in tags]
@@ -456,7 +469,7 @@ def compile_batches(batches, wd, flags, lang="c", contexts=True, edition="2021",
             if ok:
                 return res
             bad = [c for c in live if c.tag in tags]
-            bt = getattr(rustc_diagnose, "last_by_tag", {})
+            bt = last_by_tag()
             if not bad:
                 if len(live) == 1:
                     res[live[0].tag] = sorted(set(msgs))[:4]
@@ -551,7 +564,7 @@ def run_batches_ex(batches, wd, flags, lang="c", raw_lines_fn=None, keep_layout_
                 for c in live:
                     res[c.tag]["r"] = rtr.get(c.tag)
                 break
-            bt = getattr(rustc_diagnose, "last_by_tag", {})
+            bt = last_by_tag()
             # errors inside the bindings cannot be removed without regenerating: attribute and stop; errors in the probe only drop cases
             bad = [c for c in live if c.tag in tags]
             if not bad:
